@@ -268,7 +268,7 @@ def model_tie(ctx, stats, n):
                 ctx.violation("UsageError disagreement", {"kind": "tie", "nid": nid, "code": code, "body": body}, kind="correspondence")
             continue
         real = [RL.stmt_from_ast(s) for s in new.body[0].body]
-        if real != mr[1]:
+        if RL.canon_tmps(real) != RL.canon_tmps(mr[1]):
             ctx.violation(f"rewriting for function id {nid} differs from the model's\n{src}{ast.unparse(new)}\n{RL.body_src(mr[1])}",
                           {"kind": "tie", "nid": nid, "code": code, "body": body}, kind="correspondence")
             continue
@@ -348,7 +348,7 @@ def replay(ctx, payload):
             if st != "ok":
                 return (st == "usage") != bool(mr[0])
             print(ast.unparse(new)); print(RL.body_src(mr[1]))
-            return [RL.stmt_from_ast(s) for s in new.body[0].body] != mr[1]
+            return RL.canon_tmps([RL.stmt_from_ast(s) for s in new.body[0].body]) != RL.canon_tmps(mr[1])
         return False
     finally:
         shutil.rmtree(work, ignore_errors=True)
